@@ -35,7 +35,8 @@ RULE = ("a case = loop configuration × environment script × worker programs (s
         "the loop argument, between handles, inside a task); a case is non-trivial when the run reached at "
         "least one of: a task-bound non-step callback in the ready queue, a woken-not-run task, a pending "
         "_must_cancel, an accepted task_throw on a blocked / runnable / never-started task, a refused throw, "
-        "task_interrupt, a loop stopped with tasks left, cancel of the current task, a done future yielded; "
+        "task_interrupt, a loop stopped with tasks left, cancel of the current task, a done future yielded, a "
+        "Task.cancel() refused by a pending future (gather window / cancel-refusing future), await of gather(); "
         "distinct = hash of the case JSON")
 
 C09_KINDS = ("runnable_tasks", "blocked_tasks", "all_tasks !=", "task_is_runnable", "ready_find-raised",
@@ -48,10 +49,10 @@ TRIVIAL_TAGS = {"obs-outside", "obs-callback", "obs-in-task", "future-setres", "
 # generation
 
 ENV_W = [("step", 40), ("create", 9), ("newfut", 3), ("setres", 6), ("setexc", 3), ("cancelfut", 3),
-         ("addcb", 2), ("cancel", 6), ("cscancel", 6), ("cscb", 2), ("throw", 9), ("pause", 4)]
+         ("addcb", 2), ("cancel", 7), ("cscancel", 6), ("cscb", 2), ("throw", 9), ("nocancel", 4), ("pause", 4)]
 OP_W = [("s", 18), ("w", 24), ("y", 3), ("bad", 2), ("i", 9), ("a", 34), ("ret", 2), ("raise", 2)]
 INNER_W = [("create", 5), ("newfut", 3), ("setres", 6), ("setexc", 2), ("cancelfut", 3), ("addcb", 1),
-           ("cancel", 8), ("cscancel", 6), ("cscb", 1), ("throw", 10), ("obs", 6)]
+           ("cancel", 8), ("cscancel", 6), ("cscb", 1), ("throw", 10), ("nocancel", 3), ("obs", 6)]
 
 
 def pick(rng, table):
@@ -72,6 +73,8 @@ def gen_action(rng, kind, depth):
         return [kind, rng.randrange(6)]
     if kind == "throw":
         return ["throw", rng.randrange(6), int(rng.random() < 0.5)]
+    if kind == "nocancel":
+        return ["nocancel", rng.randrange(6), int(rng.random() < 0.75)]
     return [kind]
 
 
@@ -114,7 +117,7 @@ def gen_case(rng, n_actions=None, cfg=None):
             script.append(["resume"])
         else:
             script.append(gen_action(rng, k, 0))
-    return {"cfg": cfg, "script": script}
+    return {"cfg": cfg, "script": script, "no_throw_on_blocked_cancel_pending": True}
 
 
 # ---------------------------------------------------------------------------------------
@@ -180,15 +183,16 @@ def fails_with(case, prov, kinds):
 def shrink_case(case, pred):
     """ddmin over the script, then over each worker program."""
     cfg = case["cfg"]
-    script = core.ddmin(case["script"], lambda s: pred({"cfg": cfg, "script": s}))
-    if not pred({"cfg": cfg, "script": script}):
+    extra = {k: v for k, v in case.items() if k not in ("cfg", "script")}
+    script = core.ddmin(case["script"], lambda s: pred(dict(extra, cfg=cfg, script=s)))
+    if not pred(dict(extra, cfg=cfg, script=script)):
         script = case["script"]
     for i, a in enumerate(script):
         if a[0] == "create" and len(a[2]) > 0:
             def with_prog(p, i=i, a=a):
                 s2 = list(script)
                 s2[i] = ["create", a[1], p, a[3]]
-                return {"cfg": cfg, "script": s2}
+                return dict(extra, cfg=cfg, script=s2)
             if pred(with_prog([])):
                 script[i] = ["create", a[1], [], a[3]]
                 continue
@@ -196,7 +200,7 @@ def shrink_case(case, pred):
                 p = core.ddmin(a[2], lambda p: pred(with_prog(p)))
                 if pred(with_prog(p)):
                     script[i] = ["create", a[1], p, a[3]]
-    return {"cfg": cfg, "script": script}
+    return dict(extra, cfg=cfg, script=script)
 
 
 def model_check(ctx, worlds, theorem, label=""):
@@ -287,6 +291,93 @@ def explore(ctx, cases, kinds=C09_KINDS, theorem="Asynkit.C09.partition", label=
     return worlds
 
 
+def explore_untraced(ctx, cases, kinds=C09_KINDS, theorem="Asynkit.C09.partition", label="oracle-only: ",
+                     expected=None):
+    """Oracle only (no model correspondence): scenarios whose futures are not harness objects
+    (gather / shield / Event / Lock / Queue)."""
+    provs = ctx.extra.setdefault("_provs", {})
+    for case in cases:
+        try:
+            w = K.run_case(case, trace=False)
+        except K.HarnessBug as e:
+            raise core.InfraError(f"harness bug on case {json.dumps(case)[:400]}: {e!r}")
+        ctx.case(json.dumps(case, sort_keys=True), sorted(w.tags - TRIVIAL_TAGS))
+        seen = set()
+        for p in my_problems(w, kinds):
+            prov = prov_key(p["kind"])
+            if prov in seen:
+                continue
+            seen.add(prov)
+            if prov in provs:
+                ctx.violation(provs[prov], "", None)
+                continue
+
+            def pred(c, prov=prov):
+                try:
+                    w2 = K.run_case(dict(c, rich=True), trace=False)
+                except (K.HarnessBug, core.InfraError):
+                    return False
+                return any(prov_key(q["kind"]) == prov for q in my_problems(w2, kinds))
+            small = dict(shrink_case(case, pred), rich=True)
+            try:
+                w2 = K.run_case(small, trace=False)
+                tags = w2.tags
+                p2 = next((q for q in my_problems(w2, kinds) if prov_key(q["kind"]) == prov), p)
+            except (K.HarnessBug, core.InfraError):
+                tags, p2 = (), p
+            key = final_key(prov, small, tags)
+            provs[prov] = key
+            ctx.violation(key, f"{label}{p2['kind']}", small,
+                          expected=expected or "all_tasks = runnable_tasks ⊎ blocked_tasks ⊎ {current}; "
+                          "the API returns; task_is_runnable ⇔ in the ready queue",
+                          observed=p2["detail"], theorem=theorem)
+
+
+def gen_gather_prog(rng, depth=0):
+    prog = []
+    for _ in range(rng.randint(1, 4)):
+        r = rng.random()
+        if r < 0.45:
+            k = rng.randint(1, 3)
+            prog.append(["gat", [rng.randrange(4) for _ in range(k)], int(rng.random() < 0.4)])
+        elif r < 0.55:
+            prog.append(["wsh", rng.randrange(4)])
+        elif r < 0.65:
+            prog.append(["w", rng.randrange(4)])
+        elif r < 0.75:
+            prog.append(["s"])
+        else:
+            k = rng.choice(["cancel", "cancel", "setres", "setres", "setexc", "cscancel", "obs"])
+            prog.append(["a", [k, rng.randrange(5)] if k != "obs" else ["obs"]])
+    return prog
+
+
+def gen_gather_case(rng):
+    """Workers awaiting gather()/shield() of harness futures; children resolved and tasks cancelled in
+    the same loop iteration (no `step` in between) with high probability, so that Task.cancel() meets
+    a gathering future that is still pending but has nothing left to cancel."""
+    cfg = rng.choice(["stock", "sched", "prio"])
+    script = [["newfut"] for _ in range(rng.randint(2, 4))]
+    for _ in range(rng.randint(1, 3)):
+        script.append(["create", rng.choice(["p", "c"]), gen_gather_prog(rng), rng.choice(["all", "intr", "none"])])
+    script.append(["resume"])
+    for _ in range(rng.randint(6, 30)):
+        r = rng.random()
+        if r < 0.30:
+            script.append(["step"])
+        elif r < 0.62:
+            script.append([rng.choice(["setres", "setres", "setres", "setexc", "cancelfut"]), rng.randrange(4)])
+        elif r < 0.84:
+            script.append([rng.choice(["cancel", "cancel", "cscancel"]), rng.randrange(4)])
+        elif r < 0.90:
+            script.append(["newfut"])
+        elif r < 0.95:
+            script.append(["create", rng.choice(["p", "c"]), gen_gather_prog(rng), rng.choice(["all", "none"])])
+        else:
+            script.extend([["pause"], ["obs"], ["resume"]])
+    return {"cfg": cfg, "script": script, "rich": True}
+
+
 def corpus_cases(prop):
     d = core.ROOT / "corpus" / prop
     out = []
@@ -298,23 +389,37 @@ def corpus_cases(prop):
 
 def run(ctx):
     rng = ctx.rng
-    ctx.set_budget(50 if not ctx.thorough() else 780)
-    explore(ctx, corpus_cases(PROP), label="corpus: ")
+    ctx.set_budget(50 if not ctx.thorough() else 600)
+    corpus = corpus_cases(PROP)
+    explore(ctx, [c for c in corpus if not c.get("rich")], label="corpus: ")
+    explore_untraced(ctx, [c for c in corpus if c.get("rich")], label="corpus: ")
     n = 2500 if ctx.thorough() else 260
+    n_gather = 3000 if ctx.thorough() else 200
     batch = 130 if not ctx.thorough() else 500
     done = 0
-    while done < n and ctx.time_left() > 8:
+    while done < n and ctx.time_left() > (8 if not ctx.thorough() else 180):   # leave room for the gather stream
         cases = [gen_case(rng) for _ in range(min(batch, n - done))]
         ws = explore(ctx, cases)
         if done == 0:
             for c in cases[:2]:
                 ctx.sample(c)
         done += len(cases)
+    gdone = 0
+    while gdone < n_gather and ctx.time_left() > 5:
+        cases = [gen_gather_case(rng) for _ in range(min(100, n_gather - gdone))]
+        explore_untraced(ctx, cases)
+        if gdone == 0:
+            ctx.sample(cases[0])
+        gdone += len(cases)
+    ctx.extra["gather_cases"] = gdone
     ctx.extra.pop("_provs", None)
     ctx.extra["cases_planned"] = n
     ctx.extra["cases_run"] = done
 
 
 def replay(ctx, data):
-    explore(ctx, [data["case"]], label="replay: ")
+    if data["case"].get("rich"):
+        explore_untraced(ctx, [data["case"]], label="replay: ")
+    else:
+        explore(ctx, [data["case"]], label="replay: ")
     ctx.extra.pop("_provs", None)
